@@ -225,8 +225,10 @@ def shallowV (E : Env) (n : Nat) : CVal → Except Exc (CVal × Nat)
 mutual
 /-- `copy.deepcopy(v)`.  `Trait*Object.__deepcopy__` builds
 `Trait*Object(self.trait, None, self.name, [deepcopy(x) …])`
-(trait_list_object.py:810-820): for a detached object `self.trait` is None and
-`__init__` raises AttributeError (`trait.has_items`). -/
+(trait_list_object.py:810-820): an owner-less object with the same trait.  For
+a detached object (`self.trait` is None after `__setstate__`) the copy is again
+a detached object (`__init__` accepts `trait=None` since dd9f9de; before it
+raised AttributeError - finding F71). -/
 def deepcopyV (n : Nat) : CVal → Except Exc (CVal × Nat)
   | .leaf a => .ok (.leaf (a.copiedAt n), n + 1)
   | .node k _ b keys kids =>
@@ -235,7 +237,7 @@ def deepcopyV (n : Nat) : CVal → Except Exc (CVal × Nat)
     | .ok (kids', n') =>
       match b with
       | .plain => .ok (.node k n .plain (keys.map (Leaf.copiedAt n)) kids', n')
-      | .detached _ => .error .attributeError
+      | .detached _ => .ok (.node k n (.detached none) (keys.map (Leaf.copiedAt n)) kids', n')
       | .ownerless sh => .ok (.node k n (.ownerless sh) (keys.map (Leaf.copiedAt n)) kids', n')
       | .bound _ sh => .ok (.node k n (.ownerless sh) (keys.map (Leaf.copiedAt n)) kids', n')
 def deepcopyL (n : Nat) : List CVal → Except Exc (List CVal × Nat)
@@ -447,6 +449,56 @@ def cloneTraits (E : Env) (s : Obj) (o' : Nat) (arg : Option CopyMode) (n : Nat)
 is the outermost call (has_traits.py:1686-1693, as repaired by 50c4e1f; before
 it the default was None - "copy reference" - finding F70). -/
 def deepcopyObj (E : Env) (s : Obj) (o' : Nat) (n : Nat) : Copied := cloneTraits E s o' (some .deep) n
+
+/-! ## The copy mode below the top level (has_traits.py:1670-1693)
+
+`clone_traits(copy=arg)` stores `arg` in the memo (`memo["traits_copy_mode"] =
+copy`, whatever it is) and an object reached through a trait that is copied
+deeply is cloned by its `__deepcopy__` with `copy=memo.get("traits_copy_mode",
+"deep")`: the mode of the OUTER call, `'deep'` only when `copy.deepcopy` itself
+is the outermost call. -/
+
+inductive Outer where
+  | clone (arg : Option CopyMode)
+  | deepcopy
+  | pickle
+  deriving DecidableEq, Repr
+
+/-- What becomes of a value: the same object, a shallow copy, a deep copy, or -
+for a value that cannot be copied (a lock) when a copy is asked for - nothing
+(the exception is swallowed by `copy_traits`, the trait stays at its default). -/
+inductive Fate where
+  | same | shallow | deep | lost
+  deriving DecidableEq, Repr
+
+def valueFate (m : CopyMode) (uncopyable : Bool) : Fate :=
+  match m with
+  | .ref => .same
+  | .shallow => if uncopyable then .lost else .shallow
+  | .deep => if uncopyable then .lost else .deep
+
+/-- The `copy` argument of the outermost `clone_traits`. -/
+def Outer.arg : Outer → Option CopyMode
+  | .clone arg => arg
+  | .deepcopy => some .deep
+  | .pickle => some .deep
+
+/-- The `copy` argument of the `clone_traits` call `__deepcopy__` makes for a nested object. -/
+def nestedArg : Outer → Option CopyMode
+  | .clone arg => arg          -- the memo holds the outer mode, None included
+  | .deepcopy => some .deep
+  | .pickle => some .deep
+
+/-- Fate of the value of a trait (metadata `childMeta`) of an object held by a
+trait (metadata `ownerMeta`) of the object being copied. -/
+def nestedTraitFate (outer : Outer) (ownerMeta childMeta : Option CopyMode) (uncopyable : Bool) : Fate :=
+  match outer with
+  | .pickle => .deep
+  | _ =>
+    match effMode ownerMeta outer.arg with
+    | .ref => .same          -- the child itself is shared
+    | .shallow => .same      -- copy.copy(child): `__setstate__` re-assigns the very same values
+    | .deep => valueFate (effMode childMeta (nestedArg outer)) uncopyable
 
 /-! ## Container mutation (what "live" means)
 
